@@ -353,7 +353,8 @@ def _loss_tensors(case):
     if not case["batch_first"]:
         ref, hyp = ref.t().contiguous(), hyp.t().contiguous()
         logits = logits.transpose(0, 1).contiguous()
-    return logits, ref, hyp
+    lay = G.layout_of(case)
+    return G.relayout(logits, lay), G.relayout(ref, lay), G.relayout(hyp, lay)
 
 
 def _call_loss(mon, case, logits, ref, hyp):
